@@ -191,6 +191,25 @@ theorem clearObj_noNodes (s : St) (he : EdgeOK s) (c : CellId) :
     subst hxc
     exact h2 (hobj h1)
 
+/-- `clear_obj` of several cells (a cells and its derived copies in sub spaces): the invariant
+stays, none of them has a node afterwards, and no cells gains one -/
+theorem clearObjs_ci {s : St} (h : CI env lt s) (CL : List CellId) :
+    CI env lt (CL.foldl St.clearObj s) ∧
+    (∀ x ∈ (CL.foldl St.clearObj s).gn, x ∈ s.gn) ∧
+    (∀ c ∈ CL, ∀ x ∈ (CL.foldl St.clearObj s).gn, x.cell ≠ c) := by
+  induction CL generalizing s with
+  | nil => exact ⟨h, fun _ hx => hx, fun _ hc => by cases hc⟩
+  | cons c0 CL ih =>
+    simp only [List.foldl_cons]
+    obtain ⟨R, hc, _, _⟩ := clr_clearObj s (fun _ => False) h.gi.edgeOK c0
+    obtain ⟨h1, h2, h3⟩ := ih (clearObj_ci h c0)
+    refine ⟨h1, fun x hx => ((hc.mem_gn x).mp (h2 x hx)).1, ?_⟩
+    intro c hcm x hx
+    simp only [List.mem_cons] at hcm
+    rcases hcm with rfl | hcm
+    · exact clearObj_noNodes s h.gi.edgeOK c x (h2 x hx)
+    · exact h3 c hcm x hx
+
 /-- **(ii) deletion of cells `c`** (`St.delCell`): for ANY new definitions `env'` that differ from
 the old ones at `c` (in particular: `c` no longer exists) and – arbitrarily in the formulas and
 `allow_none` – at the cells of `c`'s space (their names resolve differently now); the flags and
